@@ -310,6 +310,10 @@ def _run(ck, root):
         return
     census_hits, ref_final, seed_archive = got
     oracle = Oracle(ck, ref_final, ref_final["solve"])
+    # development knob (mutation self-test under load): inject only into the named workloads;
+    # the run is then never reported as exhaustive
+    only = [w for w in os.environ.get("VERIF_C38_WORKLOADS", "").split(",") if w]
+    active = [w for w in WORKLOADS if not only or w in only]
     ck.note(
         failpoints={wl: len(census_hits[wl]) for wl in WORKLOADS},
         failpoint_sites=sorted({h["site"] for wl in WORKLOADS for h in census_hits[wl]}),
@@ -318,7 +322,7 @@ def _run(ck, root):
 
     # ------------------------------------------------------------ single faults
     cases = []
-    for wl in WORKLOADS:
+    for wl in active:
         for h in census_hits[wl]:
             k = h["ordinal"]
             variants = [("before", "error")]
@@ -337,7 +341,9 @@ def _run(ck, root):
     results = _run_cases(ck, oracle, cases, census_hits)
     decided = {(k[0], k[1]) for k in results if k[2] == "before" and k[3] == "error"}
     all_hits = {(wl, h["ordinal"]) for wl in WORKLOADS for h in census_hits[wl]}
-    exhaustive_single = planned == all_hits and decided == all_hits
+    exhaustive_single = planned == all_hits and decided == all_hits and not only
+    if only:
+        ck.note(restricted_to_workloads=active)
     ck.note(single_faults_injected=len(decided), single_faults_censused=len(all_hits))
 
     exhaustive_pairs = None
